@@ -106,6 +106,39 @@ def main():
     sys.exit(rc)
 
 
+_W = {}
+
+
+class ObSummary:
+    """picklable summary of an obligation (z3 terms stay in the worker that generated them)"""
+
+    def __init__(self, ob):
+        import z3
+        self.name = ob.name
+        self.variant = ob.variant
+        self.note = ob.note
+        self.npc = len(ob.pc)
+        try:
+            self.goal_str = str(z3.simplify(ob.goal))[:300]
+        except Exception:
+            self.goal_str = '?'
+
+
+def _verify_worker(idx):
+    from pyvc.verify import verify_function
+    from pyvc.prove import discharge
+    con, vn = _W['jobs'][idx]
+    t0 = time.time()
+    r = verify_function(_W['world'], _W['reg'], con, vn)
+    ts = time.time() - t0
+    t1 = time.time()
+    res, txt = discharge(r.obligations, tier=_W['tier'], jobs=_W['inner'])
+    td = time.time() - t1
+    obs = [ObSummary(ob) for ob in r.obligations]
+    r.obligations = obs
+    return idx, r, obs, res, txt, ts, td
+
+
 def run_check(pid, tier, seed, args):
     from pyvc.world import World
     from pyvc.contract import Registry
@@ -131,24 +164,37 @@ def run_check(pid, tier, seed, args):
     if not targets:
         print(f"CHECKER-ERROR property={pid}: no contracts in its proof tree")
         return 3
-    # ---- 1. symbolic execution of the real sources: obligations ---------------------------------------------------
+    # ---- 1+2. symbolic execution of the real sources and discharge, one worker process per function variant -----------
+    global _W
+    jobs_fv = [(con, vn) for con in sorted(targets, key=lambda c: c.target) for vn in con.variant_names()]
+    _W = dict(world=world, reg=reg, jobs=jobs_fv, tier=tier, inner=max(2, 16 // max(1, len(jobs_fv))))
     funcs = []
     all_obs = []
-    for con in sorted(targets, key=lambda c: c.target):
-        for vn in con.variant_names():
-            r = verify_function(world, reg, con, vn)
-            funcs.append(r)
-            for ob in r.obligations:
-                all_obs.append((r, ob))
-    t_symex = time.time() - t0
+    results = {}
+    texts = {}
+    t_symex = t_solve = 0.0
+    import multiprocessing as mp
+    if len(jobs_fv) == 1:
+        outs = [_verify_worker(0)]
+    else:
+        with cf.ProcessPoolExecutor(max_workers=min(16, len(jobs_fv)), mp_context=mp.get_context('fork')) as ex:
+            outs = list(ex.map(_verify_worker, range(len(jobs_fv))))
+    for idx, r, obs, res, txt, ts, td in sorted(outs, key=lambda o: o[0]):
+        funcs.append(r)
+        t_symex += ts
+        t_solve += td
+        for k, ob in enumerate(obs):
+            results[len(all_obs)] = res[k]
+            all_obs.append((r, ob))
+        texts.update(txt)
     # lemmas over contracts (no code)
     lemma_obs = report.property_lemmas(reg, pid)
-    for ob in lemma_obs:
-        all_obs.append((None, ob))
-    # ---- 2. discharge -------------------------------------------------------------------------------------------
-    t1 = time.time()
-    results, texts = discharge([ob for _, ob in all_obs], tier=tier)
-    t_solve = time.time() - t1
+    if lemma_obs:
+        lres, ltxt = discharge(lemma_obs, tier=tier)
+        for k, ob in enumerate(lemma_obs):
+            results[len(all_obs)] = lres[k]
+            all_obs.append((None, ObSummary(ob)))
+        texts.update(ltxt)
     # ---- 3. native side: cover witnesses for every function, refutation search where needed -----------------------
     native = {}
     t2 = time.time()
@@ -158,8 +204,8 @@ def run_check(pid, tier, seed, args):
             con = reg.contracts[r.target]
             if con.native is None:
                 continue
-            failed = r.status != 'ok' or any(results[i]['verdict'] != 'unsat'
-                                             for i, (rr, _) in enumerate(all_obs) if rr is r)
+            failed = r.status not in ('ok', 'bounded_by_design') or any(
+                results[i]['verdict'] != 'unsat' for i, (rr, _) in enumerate(all_obs) if rr is r)
             budget = (60000 if failed else 6000) if tier == 'quick' else (400000 if failed else 60000)
             jobs.append((contracts_module_of(reg, r.target), r.target, r.variant, seed, tier, budget, pid))
         with cf.ThreadPoolExecutor(max_workers=12) as ex:
